@@ -367,11 +367,20 @@ class Determinant(CompoundTensorOperator):
         if r == 0:
             return A
 
-        return CompoundTensorOperator.__new__(cls)
+        # construct and initialize a new Determinant object
+        self = CompoundTensorOperator.__new__(cls)
+        self._init(A)
+        return self
+
+    def _init(self, A):
+        """Initialise."""
+        self.ufl_operands = (A,)
 
     def __init__(self, A):
         """Initialise."""
-        CompoundTensorOperator.__init__(self, (A,))
+        # Python calls __init__ also on an existing Determinant returned
+        # from __new__ (det(det(A))): the operands must not be set here
+        Operator.__init__(self)
 
     def __str__(self):
         """Format as a string."""
